@@ -164,4 +164,25 @@ def c17_4(c: Ctx) -> None:
         c.fail('bubus/models.py BaseEvent', f'custom serializers for {ser_fields}', 'a custom serializer changes how id/type/parent/path/payload appear in the WAL')
 
 
+
+@ob('C17.5', 'MPT', 'whenever a WAL path is configured, every non-failing path through the WAL handler performs the write: the only condition that may skip it is `not self.wal_path`')
+def c17_5(c: Ctx) -> None:
+    u = c.unit(SVC, f'EventBus.{WAL}')
+    g = c.cfg(u)
+    self_ = u.params()[0]
+    writes = {n.id for n in g.live_nodes() if any(call_name(x) in ('write', 'writelines') for x in q.node_calls(n))}
+    c.floor(len(writes), 1, 'write statement in the WAL handler')
+    from sa.cfg import search
+
+    def allowed_skip(n, e) -> bool:
+        return n.kind == 'if' and e.label == 'true' and U(n.ast.test) in (f'not {self_}.wal_path', f'{self_}.wal_path is None')
+
+    p = search([(g.entry, ())], is_target=lambda n, d: n.kind == 'exit', is_barrier=lambda n, d: n.id in writes, edge_ok=lambda n, e, d: None if (e.is_exc or allowed_skip(n, e)) else d)
+    if p is None:
+        c.ok(where(u), 'every non-failing path with a WAL path configured writes the line')
+    else:
+        cond = next((s_.node.text(80) for s_ in reversed(p) if s_.node.kind == 'if'), 'unconditionally')
+        c.fail(u, f'the WAL handler can return without writing although a WAL path is set (`{cond}`)', 'some processed events get no WAL line (e.g. a parent that completes later through its children)', witness=c.path(g.entry, p))
+
+
 OBLIGATIONS = ob.obs
